@@ -60,7 +60,7 @@ func genCase(kind string) func(t *rapid.T) Case {
 			behs = []string{"untilcancel", "untilcancel", "success", "error", "nilroutine"}
 			kinds = []string{"setkey", "setkey", "setkey", "removekey", "removekey", "synckeys", "synckeys", "getkey", "setctx", "advance", "advance", "advance"}
 		case "C06rc":
-			c.Full = true
+			c.Full = rapid.IntRange(0, 2).Draw(t, "full6rc") != 0 // 1/3: mutex sections of concurrent calls interleave
 			c.RefCount = true
 			behs = []string{"untilcancel", "untilcancel", "success", "error", "nilroutine"}
 			kinds = []string{"addref", "addref", "addref", "release", "release", "release", "release2", "rcremove", "getkey", "setctx", "advance", "advance", "advance"}
